@@ -546,8 +546,15 @@ def spec_tree_violations(c, res):
 
 # ---------------------------------------------------------------------------------------------------
 # C: edits
-EDIT_NAMES = ['latin-1', 'Latin-1', 'KOI8-R', 'utf-8', 'ascii', 'UTF-16', 'iso-8859-7', 'bogus', '123', 'latin 1', 'x;y', '']
+EDIT_NAMES = ['latin-1', 'Latin-1', 'KOI8-R', 'utf-8', 'ascii', 'UTF-16', 'iso-8859-7', 'rot13', 'bogus', '123', 'latin 1', 'x;y', '']
 KINDS = ['comment', 'unknown', 'import', 'variables', 'style']
+
+
+def text_codec(n):
+    try:
+        return bool(codecs.lookup(n)._is_text_encoding)
+    except (LookupError, AttributeError):
+        return True
 
 
 def impl_valid_name(n):
@@ -583,7 +590,7 @@ def gen_edits(rng):
     for _ in range(rng.randint(1, 9)):
         x = rng.random()
         if x < 0.22:
-            ops.append({'op': 'enc', 'e': rng.choice([None, '', 'bogus', '123'] + good * 2)})
+            ops.append({'op': 'enc', 'e': rng.choice([None, '', 'bogus', '123', 'rot13'] + good * 3)})
         elif x < 0.40:
             ops.append({'op': 'insn', 'name': rng.choice(good * 3 + ['bogus', '', 'latin 1', 'x;y']),
                         'index': rng.choice([None, 0, 0, 1, 2, 7]), 'inorder': False})
@@ -594,6 +601,9 @@ def gen_edits(rng):
                         'inorder': False})
             if rng.random() < 0.3:
                 ops[-1].update(index=None, inorder=True)
+                if rng.random() < 0.25:
+                    # `insertRule(rule, index, inOrder=True)`: documented as "ignoring index"
+                    ops[-1].update(index=rng.choice([0, 0, 1, 2]))
         elif x < 0.80:
             ops.append({'op': 'del', 'i': rng.choice([0, 0, 0, 1, 2, 5])})
         elif x < 0.90:
@@ -668,8 +678,11 @@ def run_edits(cssutils, ops):
     sheet = parser.parseString('')
     cssutils.log.raiseExceptions = True
     steps, viol = [], []
+    inorder_index_seen = False      # region of the known finding C08-inorder-index
     for k, o in enumerate(ops):
         status = 'ok'
+        if o['op'] == 'ins' and o['inorder'] and o['index'] is not None and o['rule'] == 'variables':
+            inorder_index_seen = True
         try:
             if o['op'] == 'enc':
                 sheet.encoding = o['e']
@@ -704,7 +717,8 @@ def run_edits(cssutils, ops):
         want = rules[0].encoding if cs[:1] == [0] else 'utf-8'
         w = {'step': k, 'op': op_word(o)}
         if cs not in ([], [0]):
-            viol.append({'clause': 'there is at most one @charset rule and it is the first rule', 'detail': dict(w, charset_at=cs)})
+            viol.append({'clause': 'there is at most one @charset rule and it is the first rule', 'detail': dict(w, charset_at=cs),
+                         'known': 'C08-inorder-index' if inorder_index_seen else None})
         elif e_now != want:
             viol.append({'clause': 'sheet.encoding equals the @charset rule (utf-8 without one)',
                          'detail': dict(w, encoding=e_now, rule=want)})
@@ -721,7 +735,8 @@ def run_edits(cssutils, ops):
                              'detail': dict(w, text=t[:40])})
         except Exception as x:
             viol.append({'clause': 'the serialisation is a byte string decodable in sheet.encoding',
-                         'detail': dict(w, error=repr(x))})
+                         'detail': dict(w, error=repr(x)),
+                         'known': 'C08-nontext-codec' if not text_codec(e_now) else None})
     return steps, '%s %s' % (show_rules(sheet), enc(sheet.encoding)), viol
 
 
@@ -925,6 +940,9 @@ def known_still_fails(cssutils, finding):
         from cssutils.util import _readUrl
         r = _readUrl('http://h/x.css', fetcher=lambda u: (None, bytes.fromhex(w['bytes'])))
         return r[1] != 2
+    if fid == 'C08-inorder-index':
+        steps, final, viol = run_edits(cssutils, w['ops'])
+        return any(v.get('known') == fid for v in viol)
     if fid == 'C08-nontext-codec':
         try:
             s = _parser(cssutils).parseString(w['text'])
